@@ -178,15 +178,17 @@ func c04Order(c *hx.Ctx, s *p7Seed) { c04OrderBlob(c, s, s.Blob, "untouched seed
 // c04OrderBlob: one parsed value of blob asked about the three certificates in every order, twice:
 // every verdict must be the one a freshly parsed value gives (no memory of earlier verifications).
 func c04OrderBlob(c *hx.Ctx, s *p7Seed, blob []byte, class string) {
-	certs := []*x509.Certificate{s.Signer, s.Wrong, s.SameName}
-	names := []string{"signer's certificate", "another certificate", "same issuer+serial, other key"}
-	fresh := make([]bool, 3)
+	// (3, 4: the same issuer and serial under a key with a larger and with a smaller modulus than the
+	// signer's: a verification attempt against them must not leave anything behind either)
+	certs := []*x509.Certificate{s.Signer, s.Wrong, s.SameName, samePlateK(s.Signer, 4), samePlateK(s.Signer, 6)}
+	names := []string{"signer's certificate", "another certificate", "same issuer+serial, other key", "same issuer+serial, 4096-bit key", "same issuer+serial, 2047-bit key"}
+	fresh := make([]bool, len(certs))
 	for i, ct := range certs {
 		if p, err := pkcs7.ParsePKCS7(blob); err == nil {
 			hx.Try(func() { fresh[i], _ = p.Verify(ct) })
 		}
 	}
-	orders := [][]int{{0, 1, 2}, {0, 2, 1}, {1, 0, 2}, {1, 2, 0}, {2, 0, 1}, {2, 1, 0}}
+	orders := [][]int{{0, 1, 2}, {0, 2, 1}, {1, 0, 2}, {1, 2, 0}, {2, 0, 1}, {2, 1, 0}, {3, 0, 4}, {4, 0, 3}, {0, 3, 4}}
 	for _, o := range orders {
 		seq := append(append([]int{}, o...), o...)
 		if !c.Next() {
